@@ -15,6 +15,7 @@ from contracts.insn import new, leaf_value, ctx
 from contracts import deferred_c
 from contracts.deferred_c import *  # noqa
 from pyvc import driver
+from contracts.c15 import unit_pack_to_int, unit_pack_closed, unit_alphabet_closed  # noqa  ('^R' literals are part of the literal rules)
 from pyvc.engine import pyand, pyor, pyxor
 
 ID = "C05"
@@ -316,7 +317,12 @@ def spec_is_plain_digits_with_8_9(t):
 
 def units(tier):
     us = [("table", "unit_table", {}), ("number", "unit_number", {}),
-          ("bounded-precedence", "unit_bounded_precedence", dict(tier=tier)), ("bounded-literals", "unit_bounded_literals", dict(tier=tier))]
+          ("bounded-precedence", "unit_bounded_precedence", dict(tier=tier)), ("bounded-literals", "unit_bounded_literals", dict(tier=tier)),
+          ("^R-pack-closed", "unit_pack_closed", {}), ("^R-alphabet", "unit_alphabet_closed", dict(which="literal"))]
+    for n_ in range(0, 5):
+        us.append(("^R-pack_to_int[%d]" % n_, "unit_pack_to_int", dict(n=n_)))
+    us0 = us
+    us = us0
     for n in INFIX_NAMES:
         us.append(("body[%s]" % n, "unit_infix_body", dict(name=n)))
         for lz in itertools.product((False, True), repeat=2):
@@ -346,6 +352,9 @@ def replay(o, tree):
     from spec import expr_spec as spec
     cfg = o.get("cfg") or {}
     w = o.get("witness") or {}
+    if cfg.get("kind") == "alphabet" or o.get("unit", "").startswith("radix50.pack_to_int"):
+        from contracts import c15
+        return c15.replay(o, tree)
     if cfg.get("kind") in ("infix", "prefix"):
         op = cfg["op"]
         lit = lambda v: ("<-%o>" % -v) if v < 0 else "%o" % v  # noqa
